@@ -9,6 +9,7 @@ from .language import *
 from pyModelChecking.graph import DiGraph
 from pyModelChecking.graph import compute_SCCs
 from pyModelChecking.kripke import Kripke
+from pyModelChecking.PL.language import get_atomic_proposition_names
 from pyModelChecking.CTLS import LNot as LNot
 
 from .parser import Parser
@@ -299,7 +300,8 @@ def modelcheck(kripke, formula, parser=None, F=None):
         if F is not None:
             kripke = kripke.clone()
 
-            fair_label = kripke.label_fair_states(F)
+            avoid = get_atomic_proposition_names(p_formula)
+            fair_label = kripke.label_fair_states(F, avoid)
 
             p_formula = p_formula.get_equivalent_non_fair_formula(fair_label)
             p_formula = And(fair_label, p_formula)
